@@ -527,6 +527,7 @@ def check_program(item, want_obs=OBS):
         vals = sggen.valuations(item, None)
         found = []
         seen_classes = set()
+        hung = set()
         for feeds, attrs in vals:
             counts["valuations"] += 1
             try:
@@ -538,7 +539,11 @@ def check_program(item, want_obs=OBS):
                 continue
             counts["defined"] += 1
             for which in want_obs:
+                if which in hung:
+                    continue  # this observation did not terminate before: do not wait for it again
                 o = ob.observe(which, feeds, attrs)
+                if o[0] == "err" and o[1] == "timeout":
+                    hung.add(which)
                 if o[0] == "na":
                     counts["na:" + which + ":" + o[1]] = counts.get("na:" + which + ":" + o[1], 0) + 1
                     continue
@@ -560,7 +565,10 @@ def check_program(item, want_obs=OBS):
             if key is None and which in ("model", "func") and kc in done_graph:
                 continue  # the other graph observation of the same class was already minimised
             if key is None:
-                if not SHRINK:
+                if kc == "no-termination":
+                    # not minimised (every probe would wait for the limit): keyed by the loop skeleton
+                    key = f"C01|{which}-no-termination|loops:{loop_skeleton(prog['body']) or 'none'}"
+                elif not SHRINK:
                     key = f"C01|{which}-{kc}|unshrunk"
                 elif item["sub"] == "op":
                     spec, f2, a2 = minimise_op(item["spec"], feeds, attrs, which, kc)
@@ -765,3 +773,19 @@ def reads_loop_variable_after_loop(prog):
         if st[1] in later:
             return True
     return False
+
+
+def loop_skeleton(stmts):
+    out = []
+    for s in stmts:
+        if s[0] == "if":
+            inner = ";".join(x for x in (loop_skeleton(s[2]), loop_skeleton(s[3])) if x)
+            if inner:
+                out.append(f"if{{{inner}}}")
+        elif s[0] == "for":
+            inner = loop_skeleton(s[3])
+            out.append("for" + ("+break" if s[4] else "") + (f"{{{inner}}}" if inner else ""))
+        elif s[0] == "while":
+            inner = loop_skeleton(s[2])
+            out.append("while" + ("+break" if s[3] else "") + (f"{{{inner}}}" if inner else ""))
+    return ";".join(out)
